@@ -279,7 +279,7 @@ func (w *lsWorld) opAdd() (string, error) {
 			return "add(skipped: populated root)", nil
 		}
 	}
-	noCommit := w.r.IntN(40) == 0
+	noCommit := w.r.IntN(50) == 0
 	rp, err := w.createRepo(p, bare, noCommit)
 	if err != nil {
 		return "", err
@@ -598,7 +598,7 @@ func (w *lsWorld) flags() []string {
 
 // seedIndex puts a shard of a repository that is not (or no longer) under the roots
 // into the index directory, built with the library.
-func (w *lsWorld) seedIndex(name, source, version string) error {
+func (w *lsWorld) seedIndex(name, source, version string, sidecar bool) error {
 	opts := index.Options{IndexDir: w.idx, DisableCTags: true,
 		RepositoryDescription: zoekt.Repository{Name: name, Source: source, Branches: []zoekt.RepositoryBranch{{Name: "HEAD", Version: version}}}}
 	opts.SetDefaults()
@@ -609,7 +609,22 @@ func (w *lsWorld) seedIndex(name, source, version string) error {
 	if err := b.AddFile("old.txt", []byte("content of a repository indexed earlier\n")); err != nil {
 		return err
 	}
-	return b.Finish()
+	if err := b.Finish(); err != nil {
+		return err
+	}
+	if sidecar {
+		// the optional metadata sidecar next to the shard (as metadata-only updates leave it)
+		for _, shard := range opts.FindAllShards() {
+			tmp, final, err := index.JsonMarshalRepoMetaTemp(shard, &opts.RepositoryDescription)
+			if err != nil {
+				return err
+			}
+			if err := os.Rename(tmp, final); err != nil {
+				return err
+			}
+		}
+	}
+	return nil
 }
 
 func newLSWorld(work string, wi int, r *rand.Rand, useBin bool) (*lsWorld, error) {
@@ -633,12 +648,12 @@ func newLSWorld(work string, wi int, r *rand.Rand, useBin bool) (*lsWorld, error
 		// index directory exists and is empty
 		os.MkdirAll(w.idx, 0o755)
 	case 1:
-		if err := w.seedIndex("foreign/old", filepath.Join(dir, "gone", "old"), "1111111111111111111111111111111111111111"); err != nil {
+		if err := w.seedIndex("foreign/old", filepath.Join(dir, "gone", "old"), "1111111111111111111111111111111111111111", r.IntN(2) == 0); err != nil {
 			return nil, err
 		}
 	case 2:
 		// a shard under a name that a discovered repository will probably get, from another source
-		if err := w.seedIndex("app", filepath.Join(dir, "elsewhere", "app"), "2222222222222222222222222222222222222222"); err != nil {
+		if err := w.seedIndex("app", filepath.Join(dir, "elsewhere", "app"), "2222222222222222222222222222222222222222", r.IntN(2) == 0); err != nil {
 			return nil, err
 		}
 	}
@@ -760,6 +775,16 @@ func runWorld(work string, wi, rounds int, seed uint64) (obs []*roundObs) {
 					return fail(round, err)
 				}
 				o.Ops = append(o.Ops, s)
+			}
+			for _, rp := range w.repos {
+				// a repository without commits makes every sync fail; usually it gets its first commit soon
+				if rp.NoCommit && r.IntN(10) < 6 {
+					s, err := w.opCommit(rp)
+					if err != nil {
+						return fail(round, err)
+					}
+					o.Ops = append(o.Ops, s)
+				}
 			}
 			for k := 0; k < nops; k++ {
 				var s string
